@@ -275,9 +275,11 @@ def run_property(mod, tier, seed, nworkers=16):
             if bad < 3:
                 harness_errors.append("non-reproducible failure (%d/3): %s" % (bad, f["msg"][:500]))
                 continue
-        path = os.path.join(REPLAYS, "%s-%s-%s.json" % (mod.ID, f["part"], spec_hash(f.get("spec", f["msg"]))))
-        json.dump({"property": mod.ID, "part": f["part"], "spec": f.get("spec"), "msg": f["msg"], "sig": f["sig"],
-                   "case": f.get("case", "")}, open(path, "w"), indent=1, default=str)
+        key = f.get("spec") if f.get("spec") is not None else (f["sig"], f.get("reproduce", ""), f["msg"][:200])
+        path = os.path.join(REPLAYS, "%s-%s-%s.json" % (mod.ID, f["part"], spec_hash(key)))
+        rec = dict(f)
+        rec["property"] = mod.ID
+        json.dump(rec, open(path, "w"), indent=1, default=str)
         confirmed.append((f, path))
 
     # strata required by the module must be non-empty
